@@ -44,7 +44,7 @@ def bounds(tier):
 
 
 def _styles(tier):
-    return ("asis", "multiline") if tier == "quick" else R.STYLES
+    return ("asis", "multiline", "parens") if tier == "quick" else R.STYLES
 
 
 def _blen(tier):
